@@ -126,6 +126,8 @@ func (g *gen) writeStatementAssign(b *buffer, op t.ID, lhs *a.Expr, rhs *a.Expr,
 func (g *gen) writeStatementAssign1(b *buffer, op t.ID, lhs *a.Expr, rhs *a.Expr, skipRHS bool) error {
 	lhsBuf := buffer(nil)
 	opName, closer, disableWconversion := "", "", false
+	// rhsWiden means to convert the RHS to uint32_t before applying the op.
+	rhsWiden := false
 
 	if lhs != nil {
 		if err := g.writeExpr(&lhsBuf, lhs, false, 0); err != nil {
@@ -171,6 +173,16 @@ func (g *gen) writeStatementAssign1(b *buffer, op t.ID, lhs *a.Expr, rhs *a.Expr
 					return fmt.Errorf("unrecognized operator %q", op.AmbiguousForm().Str(g.tm))
 				}
 
+				// "x *= y", for uint16_t operands, would multiply as (signed)
+				// int, after C's integer promotions, and e.g. 0xFFFF * 0xFFFF
+				// overflows an int, which is undefined behavior. Multiply as
+				// uint32_t instead. This isn't necessary if the RHS is a
+				// constant, as that's written with a "u" suffix.
+				if (op == t.IDTildeModStarEq) && (lTyp.QID() == t.QID{t.IDBase, t.IDU16}) &&
+					(rhs.ConstValue() == nil) {
+					rhsWiden = true
+				}
+
 				if op.IsAssign() && lTyp.IsSmallInteger() {
 					switch op {
 					case t.IDAmpEq, t.IDPipeEq, t.IDHatEq, t.IDEq, t.IDEqQuestion:
@@ -213,8 +225,16 @@ func (g *gen) writeStatementAssign1(b *buffer, op t.ID, lhs *a.Expr, rhs *a.Expr
 		g.currFunk.tempR++
 	} else if skipRHS {
 		// No-op.
-	} else if err := g.writeExpr(b, rhs, lhs == nil, 0); err != nil {
-		return err
+	} else {
+		if rhsWiden {
+			b.writes("((uint32_t)(")
+		}
+		if err := g.writeExpr(b, rhs, lhs == nil, 0); err != nil {
+			return err
+		}
+		if rhsWiden {
+			b.writes("))")
+		}
 	}
 	b.writes(closer)
 	if n != len(*b) {
